@@ -287,7 +287,11 @@ theorem pushDefaultK_LR : ∀ (b : B) (k : Nat) (b' : B), pushDefaultK b k = .ok
     simp only [pushDefaultK, ctx_ok] at h
     split at h
     · simp [fail] at h
+    split at h
+    · simp [fail] at h
     · obtain ⟨fs', h1, h2⟩ := (bind_ok _ _ _).1 h
+      split at h2
+      · simp [fail] at h2
       cases h2
       simp only [LR] at hp ⊢
       exact pushDefaultKAt_LR _ _ k fs' h1 hp
